@@ -11,7 +11,7 @@ ID = 'C14'
 TECHNIQUE = 'runtime monitoring: shift events (operators, NumPy shift functions) judged against exact x*2^n / arithmetic shift of the PRE snapshot; operand frame monitor'
 TITLE = 'shifts'
 RULE = ('events x<<n and x>>n under the three shifting modes: expand: result value = v*2^n resp. v/2^n exactly (compared as Fractions) with codes inside the '
-        'result\'s own range; trunc/keep: format unchanged, x>>n = floor(code/2^n), x<<n = code*2^n when representable and otherwise any in-range code; '
+        'result\'s own range; trunc/keep: format unchanged, x>>n = floor(code/2^n), x<<n = code*2^n when representable and otherwise the clamped or the wrapped value; '
         'n=0 is the identity; x is never modified. Key = (direction, shifting mode, signedness, count class, code class, rank, overflowed?); non-trivial = '
         'count>0 and (code negative or trailing-zero run < count or overflowed).')
 DECIDING_OPS = ['__lshift__', '__rshift__']
@@ -96,6 +96,12 @@ def make_judges(ctx):
                                 break
                         else:
                             overflowed = True
+                            # "a value clamped or wrapped into the format's range": the bound on the value's own side, or the residue of code * 2^n
+                            clamped = hi if e > hi else lo
+                            if r not in (clamped, R.wrap(e, x.signed, x.n_word)):
+                                bad = 'code %d << %d = %d is not representable: the result code %d is neither the clamped value %d nor the wrapped one %d' % (
+                                    k, n, e, r, clamped, R.wrap(e, x.signed, x.n_word))
+                                break
                     else:
                         e = k >> n          # floor(code / 2^n): arithmetic shift
                         if r != e:
